@@ -302,8 +302,7 @@ fn fnv(bytes: &[u8], mut h: u64) -> u64 {
     h
 }
 
-/// 128-bit digest + length (equality of digests stands for equality of the observation; the
-/// parent additionally compares the raw observations byte for byte).
+/// 128-bit digest + length: equality of digests stands for equality of the observation.
 pub fn digest(bytes: &[u8]) -> String {
     format!(
         "{:016x}{:016x}.{}",
@@ -539,40 +538,58 @@ fn model_ops(case: &CaseInput, bytes: &[u8]) -> Result<ModelOps, String> {
     Ok(ModelOps { lines, strings: strings.len(), pous: index.entries.len() })
 }
 
-fn spawn_children(exe: &std::path::Path, file: &str, k: usize) -> Vec<Result<Observation, String>> {
-    let mut procs = Vec::new();
-    for i in 1..=k {
-        let mut cmd = std::process::Command::new(exe);
-        cmd.arg("c05")
-            .arg("--child")
-            .arg(i.to_string())
-            .arg("--in")
-            .arg(file)
-            // different environment size => different initial stack layout
-            .env("VERIF_C05_PAD", "x".repeat(i * 97 % 1500))
-            .stdin(std::process::Stdio::null())
-            .stdout(std::process::Stdio::piped())
-            .stderr(std::process::Stdio::piped());
-        procs.push(cmd.spawn());
+fn child_command(exe: &std::path::Path, file: &str, i: usize) -> std::process::Command {
+    let mut cmd = std::process::Command::new(exe);
+    cmd.arg("c05")
+        .arg("--child")
+        .arg(i.to_string())
+        .arg("--in")
+        .arg(file)
+        // different environment size => different initial stack layout
+        .env("VERIF_C05_PAD", "x".repeat(i * 97 % 1500))
+        .stdin(std::process::Stdio::null())
+        .stdout(std::process::Stdio::piped())
+        .stderr(std::process::Stdio::piped());
+    cmd
+}
+
+fn collect_child(p: std::io::Result<std::process::Child>) -> Result<Observation, String> {
+    match p {
+        Err(e) => Err(format!("spawn: {e}")),
+        Ok(child) => match child.wait_with_output() {
+            Err(e) => Err(format!("wait: {e}")),
+            Ok(out) => {
+                if !out.status.success() {
+                    return Err(format!(
+                        "child exited {:?}: {}",
+                        out.status.code(),
+                        String::from_utf8_lossy(&out.stderr).chars().take(300).collect::<String>()
+                    ));
+                }
+                parse_child_output(&String::from_utf8_lossy(&out.stdout))
+            }
+        },
     }
+}
+
+fn spawn_children(exe: &std::path::Path, file: &str, k: usize) -> Vec<Result<Observation, String>> {
+    let procs: Vec<_> = (1..=k).map(|i| child_command(exe, file, i).spawn()).collect();
     procs
         .into_iter()
-        .map(|p| match p {
-            Err(e) => Err(format!("spawn: {e}")),
-            Ok(child) => match child.wait_with_output() {
-                Err(e) => Err(format!("wait: {e}")),
-                Ok(out) => {
-                    if !out.status.success() {
-                        // a crash of the real code in a child is an observation, not a harness failure
-                        return Err(format!(
-                            "child exited {:?}: {}",
-                            out.status.code(),
-                            String::from_utf8_lossy(&out.stderr).chars().take(300).collect::<String>()
-                        ));
-                    }
-                    parse_child_output(&String::from_utf8_lossy(&out.stdout))
-                }
-            },
+        .enumerate()
+        .map(|(idx, p)| {
+            let mut r = collect_child(p);
+            // an environmental failure (fork/pipe under load, OOM kill) must not look like
+            // nondeterminism of the code under test: a failed child is re-run twice, alone; a child
+            // that fails three times in a row is reported (real code panics are caught inside the
+            // child and are ordinary observations)
+            let mut attempts = 0;
+            while r.is_err() && attempts < 2 {
+                attempts += 1;
+                std::thread::sleep(std::time::Duration::from_millis(200 * attempts));
+                r = collect_child(child_command(exe, file, idx + 1).spawn());
+            }
+            r
         })
         .collect()
 }
